@@ -55,10 +55,14 @@ class List(Expression):
         LEN = Code('len')
         staging = out.var('staging', [])
 
+        def bound(value):
+            # A bound may be a whole Python expression, like `n or 1`.
+            return Code(value if str(value).isidentifier() else f'({value})')
+
         with out.WHILE(True):
             # A max_len that is only known at parse time may be zero.
             if self.max_len is not None and not str(self.max_len).isdigit():
-                with out.IF(LEN(staging) >= Code(self.max_len)):
+                with out.IF(LEN(staging) >= bound(self.max_len)):
                     out += BREAK
 
             if self.expr.can_partially_succeed():
@@ -72,7 +76,7 @@ class List(Expression):
             out += staging.append(RESULT)
 
             if self.max_len is not None:
-                with out.IF(LEN(staging) == Code(self.max_len)):
+                with out.IF(LEN(staging) == bound(self.max_len)):
                     out += BREAK
 
         if not self.min_len or self.min_len == '0':
@@ -83,7 +87,7 @@ class List(Expression):
         if self.min_len == 1 or self.min_len == '1':
             condition = staging
         else:
-            condition = LEN(staging) >= Code(self.min_len)
+            condition = LEN(staging) >= bound(self.min_len)
 
         with out.IF(condition):
             out += RESULT << staging
